@@ -1,4 +1,5 @@
 import PqlModel.Props.C04
+import PqlModel.Props.C05LexStatement
 #print axioms Pql.C04.C04_decode_string
 #print axioms Pql.C04.C04_decode_identifier
 #print axioms Pql.C04.C04_decode_string_clickhouse_partial
